@@ -20,7 +20,15 @@ IDEAS = ("Ideas that were used rarely or never so far: a falsy-zero slip (`if x:
          "a mutable member; __eq__ without __hash__; re-entrancy (a renderable that prints or renders on the same console while it is "
          "being rendered); valid input produced by OTHER programs (not by rich) or unusual-but-legal option values; behaviour that "
          "differs only on the ascii-only / legacy-windows / no-colour / non-terminal / record configuration; off-by-one only for "
-         "double-width or zero-width characters; two threads being the first callers at once.")
+         "double-width or zero-width characters; two threads being the first callers at once. "
+         "Round 5 additions: an interaction of TWO features that each work alone (links x wrapping, emoji x escape, justify x "
+         "overflow x no_wrap, end= x record, soft_wrap x crop, height x vertical overflow); a Python-level subtlety (mutable default "
+         "argument, `is` vs `==` on ints/strs, bool-is-int confusion, negative index or slice step, str.splitlines vs split('\\n'), "
+         "lower vs casefold, dict ordering, `or` default swallowing 0 / '' / empty Style, shadowed loop variable, late-binding closure, "
+         "iterator exhausted by an earlier membership test, functools.lru_cache on a method with an unhashable or mutable argument, "
+         "__slots__/dataclass replace dropping a field); a boundary exactly AT equality (width == content, last element, first element, "
+         "single element, count == limit); an early-return that skips a later reset/bookkeeping step; a value computed before a "
+         "mutation but used after it; a change that is only wrong on the SECOND/third call or only for the second of two items.")
 for p in props:
     pid = p["id"]
     if want and pid not in want:
